@@ -87,6 +87,8 @@ func Load(repo string, overlay map[string][]byte) (*Program, error) {
 	}
 	sort.Slice(p.ModFns, func(i, j int) bool { return FuncKey(p.ModFns[i]) < FuncKey(p.ModFns[j]) })
 	p.ComputeGlobalFacts()
+	theProg = p
+	resetProgramCaches()
 	return p, nil
 }
 
